@@ -430,7 +430,7 @@ def xtextjoin(delimiter, ignore_empty, text, *args):
     raise_errors(delimiter, ignore_empty, text, *args)
     ignore_empty = replace_empty(next(flatten(ignore_empty, None)), False)
     if ignore_empty:
-        it = (flatten((text,) + args, is_not_empty))
+        it = flatten((text,) + args, lambda v: is_not_empty(v) and v != '')
     else:
         it = (replace_empty(v, '') for v in flatten((text,) + args, None))
     delimiter = replace_empty(next(flatten(delimiter, None)), '')
